@@ -49,6 +49,8 @@ struct l1s_state l1s;          /* the firmware's L1 state; tdma_sched.c works on
 #define NCB TDMASCHED_NUM_CB
 #define SCHED (l1s.tdma_sched)
 
+/* bookkeeping of the explorer itself (not the code under test) is exempt from instrumentation: speed */
+#define NOSAN __attribute__((no_sanitize("address", "undefined")))
 static FILE *res;
 static const int16_t PRIOS[8] = { -32768, -257, -1, 0, 1, 255, 256, 32767 };
 
@@ -85,7 +87,7 @@ static int cb_resched(uint8_t p1, uint8_t p2, uint16_t p3)
 }
 static tdma_sched_cb *const cbtab[N_CBID] = { cb_log0, cb_log1, cb_log2, cb_resched, cb_poison, NULL };
 static const char *const cbname[N_CBID] = { "log0", "log1", "log2", "resched", "DEAD-SLOT", "unknown-fn" };
-static uint8_t cbid(tdma_sched_cb *f)
+NOSAN static uint8_t cbid(tdma_sched_cb *f)
 {
 	int i;
 	for (i = 0; i < CB_OTHER; i++) if (cbtab[i] == f) return i;
@@ -96,7 +98,7 @@ static uint8_t cbid(tdma_sched_cb *f)
 struct itype { uint8_t cb, p1, p2; uint16_t p3; int16_t prio; uint16_t flags; };
 static struct itype types[256];
 static int ntypes;
-static int intern(uint8_t cb, uint8_t p1, uint8_t p2, uint16_t p3, int16_t prio, uint16_t flags)
+NOSAN static int intern(uint8_t cb, uint8_t p1, uint8_t p2, uint16_t p3, int16_t prio, uint16_t flags)
 {
 	int i;
 	for (i = 0; i < ntypes; i++)
@@ -246,12 +248,22 @@ static void ev_set(int off, int s)
 		ref_add(now + off + sh->d[i].frame, intern(sh->d[i].cb, sh->d[i].p1, sh->d[i].p2, sh->p3, sh->d[i].prio, sh->d[i].flags));
 }
 
+static unsigned long exec_hist[9];   /* execute calls by number of callbacks they ran (8 = 8 or more) */
+static const char *hist_json(void)
+{
+	static char b[256];
+	snprintf(b, sizeof(b), "\"executed_per_call_hist\": [%lu, %lu, %lu, %lu, %lu, %lu, %lu, %lu, %lu]",
+		 exec_hist[0], exec_hist[1], exec_hist[2], exec_hist[3], exec_hist[4], exec_hist[5], exec_hist[6], exec_hist[7], exec_hist[8]);
+	return b;
+}
+
 static void ev_exec(void)
 {
 	int i, k;
 	for (i = 0; i < nref; i++) ref[i].pre = 1;
 	nlog = 0; log_lost = 0;
 	int rc = tdma_sched_execute();
+	exec_hist[nlog + log_lost < 8 ? nlog + log_lost : 8]++;
 	int have_last = 0; int16_t last = 0;
 	for (k = 0; k < nlog; k++) {
 		struct lent *e = &lg[k];
@@ -350,7 +362,7 @@ static int K, MAXREAL, RECSZ;
 #define REC_HDR 3
 
 /* serialise the real scheduler + reference; returns 0 if the real state is outside the representable space */
-static int serialise(uint8_t *rec)
+NOSAN static int serialise(uint8_t *rec)
 {
 	int b, s, n = 0, i, j;
 	memset(rec, 0xFF, RECSZ);
@@ -383,7 +395,7 @@ static int serialise(uint8_t *rec)
 	return 1;
 }
 
-static void restore(const uint8_t *rec)
+NOSAN static void restore(const uint8_t *rec)
 {
 	int i;
 	memcpy(&SCHED, &tmpl, sizeof(tmpl));
@@ -464,7 +476,7 @@ static uint32_t nstates, capstates;
 static uint32_t *htab; static uint32_t hmask;
 static uint32_t cur_state; static int cur_ev;
 
-static uint64_t hash_rec(const uint8_t *r)
+NOSAN static uint64_t hash_rec(const uint8_t *r)
 {
 	uint64_t h = 1469598103934665603ull; int i;
 	for (i = 0; i < RECSZ; i++) { h ^= r[i]; h *= 1099511628211ull; }
@@ -507,7 +519,7 @@ static void on_death(void)
 }
 #endif
 
-static int do_bfs(int argc, char **argv)
+NOSAN static int do_bfs(int argc, char **argv)
 {
 	int offs[32], noff = 0, prios[8], nprio = 0, rs[8], nr = 0, sets[5], nset = 0, rprio = 3, i, j;
 	unsigned long cap = 4000000;
@@ -605,9 +617,9 @@ static int do_bfs(int argc, char **argv)
 	fprintf(res, "{\"states\": %u, \"transitions\": %lu, \"bad_transitions\": %lu, \"depth\": %d, \"frontier_exhausted\": %s, "
 		"\"alphabet\": %d, \"K\": %d, \"max_outstanding\": %d, \"ring_positions\": %d, \"min_states_per_position\": %d, "
 		"\"execute_calls\": %lu, \"items_due_at_execute\": %lu, \"schedule_calls\": %lu, \"set_calls\": %lu, \"resets\": %lu, "
-		"\"revisits\": %lu, \"item_types\": %d, \"violations\": %lu}\n",
+		"\"revisits\": %lu, \"item_types\": %d, %s, \"violations\": %lu}\n",
 		nstates, ntrans, nbad, maxdepth, hitcap ? "false" : "true", nalpha, K, max_out, npos, minpos,
-		nexec_calls, nitems_run, nsched_ok, nsets_ok, nreset, ndup, ntypes, nviol);
+		nexec_calls, nitems_run, nsched_ok, nsets_ok, nreset, ndup, ntypes, hist_json(), nviol);
 	fflush(res);
 	return nviol ? 1 : 0;
 }
@@ -709,7 +721,7 @@ static int do_capacity(int lo, int hi)
 		drain();
 		ncases++;
 	}
-	fprintf(res, "{\"capacity_cases\": %lu, \"refusals_checked\": %lu, \"items_filled\": %lu, \"violations\": %lu}\n", ncases, nrefused, nfilled, nviol);
+	fprintf(res, "{\"capacity_cases\": %lu, \"refusals_checked\": %lu, \"items_filled\": %lu, %s, \"violations\": %lu}\n", ncases, nrefused, nfilled, hist_json(), nviol);
 	return nviol ? 1 : 0;
 }
 
@@ -758,7 +770,7 @@ static int do_order(int n, unsigned long lo, unsigned long hi)
 		ntypes = 0;       /* types are per case here */
 		(void)distinct_orders;
 	}
-	fprintf(res, "{\"order_cases\": %lu, \"n\": %d, \"violations\": %lu}\n", ncases, n, nviol);
+	fprintf(res, "{\"order_cases\": %lu, \"n\": %d, %s, \"violations\": %lu}\n", ncases, n, hist_json(), nviol);
 	return nviol ? 1 : 0;
 }
 
